@@ -8,7 +8,8 @@ MapAccess that hands out prepared values; engine/models/serde.py):
   (derived)  <Derived as Serialize>::serialize emits exactly the u32 id; <Derived as Deserialize>::deserialize of a
              symbolic u32 returns the unit with that id or an error, never another unit.
   (rational) <Rational as Serialize / Deserialize> forward the BigRational unchanged.
-  (derive)   the serde_derive output for State, Compound and Unit (part of the crate's MIR): serialize emits the complete
+  (derive)   the serde_derive output for State, Compound and Unit (part of the crate's MIR; Unit also through its generated
+             visit_enum: the variant index selects exactly the variant serialize numbers so): serialize emits the complete
              struct / map / variant event sequence for symbolic powers and prefixes, nothing skipped or reordered;
              the generated visit_map of State and Compound rebuilds exactly the value the format delivers.
 Counterexamples are replayed as serde_cbor / serde_json round trips on the native builds.
@@ -32,12 +33,12 @@ CUNITS = ['Meter', 'Second', 'KiloGram', 'units::NEWTON', 'energy::JOULE', 'unit
 
 def jobs(tier, seed, report):
     report.bounds = {'identifiers': 'all 2^32 values (one symbolic u32) and every Derived static of the MIR', 'compounds': 'up to 3 entries over ' + str(CUNITS) + ' with symbolic powers (any non-zero i32) and prefixes (any i32)', 'rationals': 'an unbounded symbolic rational'}
-    report.outside = ['that serde_cbor / serde_json / num\'s own Serialize and Deserialize impls round-trip (library code, modelled as "delivers what was written")', 'the derive output for Unit::deserialize (EnumAccess) and Constant', 'decoding of the shipped db/*.bin.gz files (concrete data, no symbolic content)']
+    report.outside = ['that serde_cbor / serde_json / num\'s own Serialize and Deserialize impls round-trip (library code, modelled as "delivers what was written")', 'the derive output for Constant', 'decoding of the shipped db/*.bin.gz files (concrete data, no symbolic content)']
     report.assumptions = ['serde data model environment (engine/models/serde.py)', 'BTreeMap model ordered by the crate\'s own Ord for Unit']
     report.models_used = ['serde', 'coll', 'core', 'num']
-    report.required_witnesses = ['id-decodes-to-itself', 'static-id-total', 'derived-serialises-id', 'derived-deserialise-exact', 'rational-forwarded', 'state-events', 'compound-events', 'compound-rebuilt', 'state-rebuilt', 'unit-variant-events']
+    report.required_witnesses = ['id-decodes-to-itself', 'static-id-total', 'derived-serialises-id', 'derived-deserialise-exact', 'rational-forwarded', 'state-events', 'compound-events', 'compound-rebuilt', 'state-rebuilt', 'unit-variant-events', 'unit-variant-rebuilt']
     js = [{'name': 'ids-forall', 'kind': 'ids'}, {'name': 'ids-statics', 'kind': 'statics'}, {'name': 'derived-ser', 'kind': 'derived_ser'}, {'name': 'derived-de', 'kind': 'derived_de'},
-          {'name': 'rational', 'kind': 'rational'}, {'name': 'state', 'kind': 'state'}, {'name': 'unit-ser', 'kind': 'unit_ser'}]
+          {'name': 'rational', 'kind': 'rational'}, {'name': 'state', 'kind': 'state'}, {'name': 'unit-ser', 'kind': 'unit_ser'}, {'name': 'unit-de', 'kind': 'unit_de'}]
     import itertools
     shapes = [()] + [(u,) for u in CUNITS] + [c for c in itertools.combinations(CUNITS, 2)][:12 if tier == 'quick' else 28] + [('Meter', 'Second', 'units::NEWTON'), ('KiloGram', 'units::SIEVERT', 'units::GRAY')]
     for i, sh in enumerate(shapes): js.append({'name': f'compound-{i}', 'kind': 'compound', 'units': list(sh)})
@@ -188,6 +189,33 @@ def run_job(job, res, prefixes, budget, deadline):
                 st = b.items[0]
                 if res.obligation(I, z3.Or(st.items[0].v != p, st.items[1].v != f), 'visit_map rebuilds the State that was delivered', lambda m: cand('state-not-rebuilt', case(m), repr(st))) == 'unsat': res.witness('state-rebuilt')
             run(entry, on_path)
+    elif k == 'unit_de':
+        # the generated visit_enum: the variant index the format delivers selects exactly the variant that serialize numbers so
+        VE = [b for bl in I.bodies.values() for b in bl if b.kind == 'fn' and b.name.endswith('::visit_enum') and 'for unit::Unit>::deserialize::__Visitor' in b.args[0][1]][0]
+        table = I.enums['Unit']
+        def entry(I):
+            i = z3.Int('variant'); I.assume(z3.And(i >= 0, i < len(table)))
+            iv = I.concretize(i, limit=len(table) + 1, what='variant index')
+            uid = z3.Int('id'); I.assume(z3.And(uid >= 0, uid < 2 ** 32))
+            I.path_state['io'] = (iv, uid)
+            return I.run_body(VE, [VStruct('__Visitor', []), VObj('enumaccess', index=iv, payload=VInt(uid, 'u32'))])
+        def on_path(I, out, res):
+            kind, r = out
+            if kind != 'ok': return
+            iv, uid = I.path_state['io']
+            name = [n for n, j in table.items() if j == iv][0]
+            res['obligations'] += 1
+            if r.variant == 'Err':
+                if name == 'Derived': res['discharged'] += 1        # unknown identifier: refused, fine
+                else: cand('unit-variant-not-rebuilt', {'op': 'cbor_roundtrip', 'numeric': {'value': '1/1', 'unit': [[name, 1, 0]]}}, f'variant {iv} ({name}) is refused')
+                return
+            u = r.items[0]
+            if u.variant != name: cand('unit-variant-not-rebuilt', {'op': 'cbor_roundtrip', 'numeric': {'value': '1/1', 'unit': [[name, 1, 0]] if name != 'Derived' else []}}, f'variant index {iv} ({name}) decodes to {u.variant}'); return
+            res['discharged'] += 1
+            if name == 'Derived':
+                res.obligation(I, u.items[0].items[0].v != uid, 'the Derived payload is the unit with the delivered id', lambda m: cand('id-maps-to-other-unit', {'op': 'unit_id', 'id': rt.mval(m, uid)}, ''))
+            res.witness('unit-variant-rebuilt')
+        run(entry, on_path)
     elif k == 'unit_ser':
         SER = find_body(I, 'serialize', '&unit::Unit') if False else [b for bl in I.bodies.values() for b in bl if b.kind == 'fn' and b.name.endswith('::serialize') and b.args and b.args[0][1].strip() in ('&unit::Unit', '&Unit')][0]
         for n in rt.BASE_UNITS + rt.derived_statics(I)[:5]:
